@@ -18,10 +18,12 @@ package c09
 import (
 	"encoding/json"
 	"fmt"
+	"github.com/blevesearch/bleve/v2/numeric"
 	"os"
 	"path/filepath"
 	"reflect"
 	"sort"
+	"strconv"
 	"strings"
 	"sync"
 	"time"
@@ -59,6 +61,9 @@ type Req struct {
 	Sort   []SortComp `json:"sort"`
 	Mode   string     `json:"mode"` // page | after | before
 	Cursor []int      `json:"cursor"`
+	// NumKey: the key component sorts by the numeric twin "n" of the key field (typed as
+	// number); same order, but sort values and cursors travel in the numeric encoding
+	NumKey bool `json:"numkey,omitempty"`
 }
 
 type Hit struct {
@@ -313,6 +318,10 @@ func (r Req) sortOrder() search.SortOrder {
 			f.Missing = search.SortFieldMissingFirst
 			f.Type = search.SortFieldAsString
 		}
+		if r.NumKey {
+			f.Field = "n"
+			f.Type = search.SortFieldAsNumber
+		}
 		so = append(so, f)
 	}
 	return so
@@ -323,11 +332,23 @@ func (r Req) cursorStrings(w int) []string {
 	for i, c := range r.Sort {
 		if c.By == "id" {
 			out[i] = docID(w, r.Cursor[i])
+		} else if r.NumKey {
+			out[i] = strconv.Itoa(r.Cursor[i])
 		} else {
 			out[i] = keyTerm(r.Cursor[i])
 		}
 	}
 	return out
+}
+
+// numKeyOK: a numeric cursor can only name a number (a missing key has no numeric form)
+func numKeyOK(so []SortComp, cursor []int) bool {
+	for i, c := range so {
+		if c.By != "id" && i < len(cursor) && (cursor[i] == high || cursor[i] == low) {
+			return false
+		}
+	}
+	return true
 }
 
 func decodeSort(r Req, vals []string) ([]int, error) {
@@ -346,6 +367,12 @@ func decodeSort(r Req, vals []string) ([]int, error) {
 			n = high
 		case vals[i] == search.LowTerm:
 			n = low
+		case r.NumKey:
+			i64, err := numeric.PrefixCoded(vals[i]).Int64()
+			if err != nil {
+				return nil, fmt.Errorf("sort value %q is not a prefix-coded number", vals[i])
+			}
+			n = int(numeric.Int64ToFloat64(i64))
 		default:
 			if _, err := fmt.Sscanf(vals[i], "k%d", &n); err != nil {
 				return nil, fmt.Errorf("sort value %q is not a key term", vals[i])
@@ -904,27 +931,28 @@ func engineB(c *core.Ctx) error {
 				continue
 			}
 			size := []int{1, 2, 3, 5, 8}[r.Intn(5)]
+			numKey := (wi+si)%2 == 1
 			// (1) From/Size pages over the whole result
 			for from := 0; from <= len(cp.M); from += size {
 				fs := []int(nil)
 				if from == 0 {
 					fs = fsB
 				}
-				if _, err := step(Req{From: from, Size: size, Sort: so, Mode: "page"}, fs); err != nil {
+				if _, err := step(Req{From: from, Size: size, Sort: so, Mode: "page", NumKey: numKey}, fs); err != nil {
 					w.close()
 					return err
 				}
 			}
 			// (2) SearchAfter chain from the start, then SearchBefore chain back from the end
 			var lastCursor []int
-			cur, err := step(Req{From: 0, Size: size, Sort: so, Mode: "page"}, nil)
+			cur, err := step(Req{From: 0, Size: size, Sort: so, Mode: "page", NumKey: numKey}, nil)
 			if err != nil {
 				w.close()
 				return err
 			}
 			for guard := 0; len(cur.Hits) > 0 && guard < 100; guard++ {
 				lastCursor = cur.Hits[len(cur.Hits)-1].SV
-				cur, err = step(Req{From: 0, Size: size, Sort: so, Mode: "after", Cursor: lastCursor}, nil)
+				cur, err = step(Req{From: 0, Size: size, Sort: so, Mode: "after", Cursor: lastCursor, NumKey: numKey && numKeyOK(so, lastCursor)}, nil)
 				if err != nil {
 					w.close()
 					return err
@@ -933,7 +961,7 @@ func engineB(c *core.Ctx) error {
 			if lastCursor != nil {
 				back := lastCursor
 				for guard := 0; guard < 100; guard++ {
-					cur, err = step(Req{From: 0, Size: size, Sort: so, Mode: "before", Cursor: back}, nil)
+					cur, err = step(Req{From: 0, Size: size, Sort: so, Mode: "before", Cursor: back, NumKey: numKey && numKeyOK(so, back)}, nil)
 					if err != nil {
 						w.close()
 						return err
